@@ -9,7 +9,9 @@ ASSUMPTIONS = ["pairs of runs of the same program text on the real code: the sec
                "PrivVal/PubVal-style constructor (inputs; secret conditions of guards and selections flip), half of the time in "
                "ignore-errors mode with values outside the domain; plain ints used as public operands (widths, shift counts, "
                "exponents, constants) are part of the program and stay equal",
-               "both runs must complete; pairs where either raises are counted and skipped"]
+               "both runs must complete; pairs where either raises are counted and skipped",
+               "a pair in which a revealed value (val()) is fed back as a public operand and differs between the runs is skipped: the "
+               "circuit then depends on a public output by design"]
 PARTIAL = []
 LEVELS = "S"
 
@@ -85,7 +87,7 @@ def explore(ctx, extended=False, focus=None):
                "real code with different input values (valid/valid, and valid vs invalid-with-checks-off; secret conditions flip); "
                "shapes (variable counts, constraints with coefficients, wire expressions, guard/ONE) compared directly; the first "
                "run is also compared with the Lean model at level S; distinct = (shape, operator set, kinds, bitlength, twin mode)")
-    n = ctx.n(400, 10000) * (4 if extended else 1)
+    n = ctx.n(2000, 50000) * (4 if extended else 1)
     mix = [(5, progs.op_case), (1, progs.unop_case), (2, progs.method_case), (1, progs.ite_case), (2, progs.chain_case),
            (3, progs.guarded_case), (2, progs.array_case)]
     base = corpus_cases("C06") + progs.generate(ctx.rnd, n, "c06x" if extended else "c06_", mix=mix)
@@ -100,6 +102,13 @@ def explore(ctx, extended=False, focus=None):
             raise common.Infra(b.py_raw[:500])
         if not (a.ok and b.ok):
             ex.count("pair:skipped-raise")
+            continue
+        # a REVEALED value (the plain int returned by val()) that is fed back as a public operand makes the circuit depend on
+        # a public output by design: the pair is comparable only when the fed-back revealed values coincide
+        fed = [i for i, t in enumerate(a.case.instrs) if t.startswith("call val")
+               and any(re.search(rf"\br{i}\b", u) for u in a.case.instrs[i + 1:])]
+        if any(i < len(a.regs) and i < len(b.regs) and a.regs[i] != b.regs[i] for i in fed):
+            ex.count("pair:skipped-revealed-feedback")
             continue
         ex.count(f"pair:{mode}")
         m = a.case.meta
